@@ -14,6 +14,10 @@ type Mutation struct {
 	Operator     string
 	Site         string // root | nested | fragment
 	UnderRemoved bool
+	// Erased: normalisation (which evaluates @skip/@include with the request's variables, drops the
+	// evaluated directives and removes variables whose uses disappeared) erases the mutated
+	// construct before the validator sees it.
+	Erased bool
 }
 
 // fieldSite is a field with its context.
@@ -398,6 +402,7 @@ func Mutate(r *rand.Rand, s *Schema, doc *Doc, opName string, vars map[string]an
 		}
 		v := op.Vars[r.IntN(len(op.Vars))]
 		op.Vars = append(op.Vars, &VarDef{Name: v.Name, Type: v.Type})
+		m.UnderRemoved = !varSurvives(w, v.Name)
 	case "variable-of-output-type":
 		m.Rule = "VariablesAreInputTypes"
 		m.Site = "root"
@@ -407,6 +412,7 @@ func Mutate(r *rand.Rand, s *Schema, doc *Doc, opName string, vars map[string]an
 		v := op.Vars[r.IntN(len(op.Vars))]
 		v.Type = Named(s.Query, false)
 		v.Default = nil
+		m.UnderRemoved = !varSurvives(w, v.Name)
 	case "variable-weaker-than-position", "variable-type-mismatch":
 		m.Rule = "VariablesInAllowedPosition"
 		// find a variable used directly as an argument at a non-null position without default
@@ -630,6 +636,8 @@ func Mutate(r *rand.Rand, s *Schema, doc *Doc, opName string, vars map[string]an
 			return nil, m, false
 		}
 		// the duplicated directive must not change which fields are selected: include(if: true)
+		// NB: normalisation evaluates and drops @include(if: true), so the duplicate is erased
+		m.UnderRemoved = true
 		fs.f.Dirs = append(cloneDirs(fs.f.Dirs), &Dir{Name: "include", Args: []*ArgVal{{"if", BoolV(true)}}}, &Dir{Name: "include", Args: []*ArgVal{{"if", BoolV(true)}}})
 		for _, dd := range fs.f.Dirs[:len(fs.f.Dirs)-2] {
 			if dd.Name == "include" {
@@ -684,9 +692,51 @@ func Mutate(r *rand.Rand, s *Schema, doc *Doc, opName string, vars map[string]an
 		if len(c) == 0 {
 			return nil, m, false
 		}
-		c[r.IntN(len(c))].Default = StrV("not the right kind")
+		cv := c[r.IntN(len(c))]
+		cv.Default = StrV("not the right kind")
+		m.UnderRemoved = !varSurvives(w, cv.Name)
 	default:
 		return nil, m, false
 	}
+	m.Erased = m.UnderRemoved
 	return d, m, true
+}
+
+func valUsesVar(v *Val, name string) bool {
+	if v == nil {
+		return false
+	}
+	switch v.Kind {
+	case VVar:
+		return v.Str == name
+	case VList:
+		for _, it := range v.Items {
+			if valUsesVar(it, name) {
+				return true
+			}
+		}
+	case VObject:
+		for _, f := range v.Fields {
+			if valUsesVar(f.Val, name) {
+				return true
+			}
+		}
+	}
+	return false
+}
+
+// varSurvives reports whether variable name is still used by a field argument of a selection that
+// normalisation keeps (uses in @skip/@include arguments and in removed selections disappear).
+func varSurvives(w *siteWalker, name string) bool {
+	for _, fs := range w.fields {
+		if fs.removed {
+			continue
+		}
+		for _, a := range fs.f.Args {
+			if valUsesVar(a.Val, name) {
+				return true
+			}
+		}
+	}
+	return false
 }
